@@ -355,26 +355,59 @@ def strip_visibility(src, ed, idx, log):
     return sig[idx].start
 
 
+def _angle_open(sig, i, lo):
+    """sig[i] is `>`: index of the matching `<` (scanning backwards), or -1."""
+    depth = 0
+    j = i
+    while j >= lo:
+        if sig[j].kind == 'p' and sig[j].text == '>' and not (sig[j - 1].text == '-' and sig[j - 1].end == sig[j].start):
+            depth += 1
+        elif sig[j].kind == 'p' and sig[j].text == '<':
+            depth -= 1
+            if depth == 0:
+                return j
+        j -= 1
+    return -1
+
+
 def postfix_chain_start(sig, i, lo):
     """Token index where the postfix expression ending at token i (inclusive) starts."""
+    KW = ('return', 'in', 'else', 'match', 'if', 'let', 'while', 'for', 'break')
     while i >= lo:
         t = sig[i]
         if t.kind == 'p' and t.text in ')]' and t.mate >= 0:
-            i = t.mate - 1
-            # call / index: callee or receiver continues to the left
-            if i >= lo and (sig[i].kind in ('id', 'num', 'str') or (sig[i].kind == 'p' and sig[i].text in ')]?')):
-                if sig[i].kind == 'p' and sig[i].text == '!':
-                    i -= 1
-                continue
-            if i >= lo and sig[i].kind == 'p' and sig[i].text == '!':  # macro call
+            i = t.mate - 1        # call / index: callee or receiver continues to the left
+            if i < lo:
+                return lo
+            u = sig[i]
+            if u.kind == 'p' and u.text == '!':          # macro call: name!(..)
                 i -= 1
                 continue
-            return i + 1
+            if u.kind in ('id', 'num', 'str') and u.text not in KW:
+                continue
+            if u.kind == 'p' and u.text in ')]?':
+                continue
+            if u.kind == 'p' and u.text == '>':           # turbofish: f::<T>(..)
+                continue
+            return i + 1                                   # parenthesised primary
         elif t.kind in ('id', 'num', 'str', 'char'):
+            if t.text in KW:
+                return i + 1
             i -= 1
         elif t.kind == 'p' and t.text == '?':
             i -= 1
             continue
+        elif t.kind == 'p' and t.text == '>':
+            j = _angle_open(sig, i, lo)
+            if j < 0:
+                return i + 1
+            i = j - 1
+            if i >= lo + 1 and sig[i].text == ':' and sig[i - 1].text == ':':
+                i -= 2                                     # `Foo::<T>`: continue with Foo
+                continue
+            if i >= lo and sig[i].kind == 'id' and sig[i].text not in KW:
+                continue                                   # `Foo<T>::f`
+            return j                                       # `<T as Trait>::f`
         else:
             return i + 1
         # after a primary: `.` or `::` continues the chain
